@@ -64,15 +64,20 @@ def work(item):
         rng = random.Random(mix(seed, "c05", z))
         aw = V("AtomicWeight", z)
         Es = energies(dfs, z, rng, 8 if quick else 40, 10 if quick else 2)
-        for E in Es:
+        for iE, E in enumerate(Es):
             ph, ra, co = V("CS_Photo", z, E), V("CS_Rayl", z, E), V("CS_Compt", z, E)
             # total
             exp = (ph + ra + co) if None not in (ph, ra, co) else None
+            # the identities hold whatever was asked before: each aggregate is preceded by a question about one of its parts at the neighbouring
+            # energy of the grid (for an edge that is the point 1e-9 below it), which is what an energy scan does
+            Eprev = Es[iE - 1] if iE else E
+            V("CS_Photo", z, Eprev)
             got, err = L.call("CS_Total", z, E)
             check(st, config, "CS_Total", (z, E), exp, got, err)
             # barn twins of the four
             for base, val in (("Total", exp), ("Photo", ph), ("Rayl", ra), ("Compt", co)):
                 e2 = val * aw / NA if (val is not None and aw is not None) else None
+                V("CS_" + ("Photo" if base == "Total" else base), z, Eprev)
                 got, err = L.call("CSb_" + base, z, E)
                 check(st, config, "CSb_" + base, (z, E), e2, got, err)
             # Kissel photo total = occupancy-weighted sum of sub-shell cross sections
@@ -105,7 +110,7 @@ def work(item):
             got, err = L.call("CSb_Total_Kissel", z, E)
             check(st, config, "CSb_Total_Kissel", (z, E), e4, got, err)
             if config == "A" and (expb is not None):
-                st.violation("kissel-data-in-A", dict(config=config, z=z, E=E), "every Kissel call fails in configuration A", expb)
+                st.cls("kissel_data_present_in_A")      # a tree whose data/kissel_pe.dat is filled in: configuration A is then a second B, not a violation
         # differential cross sections on a sub-grid of energies
         Ed = [e for i, e in enumerate(Es) if e > 0 and (i % (7 if quick else 2) == 0)] + [0.0, -1.0]
         for E in Ed:
